@@ -18,13 +18,13 @@ import (
 )
 
 type Clause struct {
-	Kind  string // requires ensures invariant step exit decreases assume
-	Label string
-	Tags  []string
-	Expr  *Expr
-	Src   string
-	File  string
-	Line  int
+	Kind   string // requires ensures invariant step exit decreases assume
+	Label  string
+	Tags   []string
+	Expr   *Expr
+	Src    string
+	File   string
+	Line   int
 	Pinned bool
 }
 
@@ -59,7 +59,7 @@ type Contract struct {
 	Modifies    []*Expr
 	HasModifies bool
 	Decreases   *Clause // termination measure for recursion
-	PanicsMode  string // "", never, maybe, when
+	PanicsMode  string  // "", never, maybe, when
 	PanicsWhen  *Clause
 	Loops       map[int]*LoopSpec
 	Trusted     string
@@ -101,14 +101,14 @@ type GInv struct {
 
 type ContractSet struct {
 	countStores map[string]string // heap component -> name of the ghost counter of stores to it
-	ginvs  []*GInv
-	ufuns  map[string]*UFun
-	byKey  map[string]*Contract
-	typed  map[string]*Contract
-	specs  map[string]*SpecFn
-	axioms []*Clause
-	files  []string
-	nlines int
+	ginvs       []*GInv
+	ufuns       map[string]*UFun
+	byKey       map[string]*Contract
+	typed       map[string]*Contract
+	specs       map[string]*SpecFn
+	axioms      []*Clause
+	files       []string
+	nlines      int
 }
 
 var clauseKW = map[string]bool{"func": true, "countstores": true, "implements": true, "preserves": true, "ginv": true, "decreases": true, "assumes": true, "requires": true, "ensures": true, "modifies": true, "panics": true,
